@@ -444,6 +444,13 @@ def reentrancy(F, R):
                     kind2 = 'mut' if nm.endswith('borrow_mut') else 'shared'
                     if k2 == k and 'mut' in (kind, kind2):
                         hits.append('borrows it again here')
+                if re.search(r'^std::ops::(Fn|FnMut|FnOnce)::call(_mut|_once)?$', nm) and tt['args'] and op_place(tt['args'][0]) is not None \
+                        and re.search(r'\bdyn ', b.local_ty(op_place(tt['args'][0])['l']) or ''):
+                    # a callback the application registered (boxed dyn Fn): it may call back into the sink, and every sink
+                    # entry point looks at this cell (is_ready()/credit() borrow `queues`)
+                    R.ob('C16.refcell', '%s|%s.%s|application-callback-runs-without-the-guard' % (re.sub(r'(::\{(closure|inl)#\d+\})+$', '', p), k[0].split('::')[-1], k[1]), False,
+                         'the application\'s callback (%s) is invoked while the %s guard on %s.%s is alive: any use of the sink inside the callback (credit(), is_ready(), sending the next message) is a BorrowMutError panic, on a PUBACK the peer sends' % (
+                             b.local_ty(op_place(tt['args'][0])['l']), kind, k[0], k[1]), b.loc(x))
                 tgts = [q for q in F.call_targets(tt, expand_traits=False) if q in F.bodies]
                 # closures handed to this call run inside it
                 for a in tt.get('args', []):
